@@ -62,14 +62,16 @@ func TestDbgC09(t *testing.T) {
 		w.Run(&world.Op{Kind: "upgrade", DisableHooks: true, Chart: c09Chart(0, 1)})
 		w.Run(&world.Op{Kind: "upgrade", DisableHooks: true, Chart: c09Chart(0, 2)})
 	}
-	rs, _, err := w.RunConcurrent(c.Ops, func(step int, waiting []int) int {
-		if step < len(c.Schedule) {
-			for k, id := range waiting {
-				if id == c.Schedule[step] {
+	cursor := 0
+	rs, _, err := w.RunConcurrent(c.Ops, func(_ int, waiting []int) int {
+		for cursor < len(c.Schedule) {
+			id := c.Schedule[cursor]
+			cursor++
+			for k, wid := range waiting {
+				if wid == id {
 					return k
 				}
 			}
-			return c.Schedule[step] % len(waiting)
 		}
 		return 0
 	}, 20e9)
